@@ -37,6 +37,7 @@ func runC14(c *Ctx) {
 	c.Rule("C14-R2", "pool-only execution and bounded worker count", 14)
 	c.Rule("C14-R3", "cache protocol in processJob; CacheKey coverage", 20)
 	c.Rule("C14-R4", "guarded fields only touched under their mutex", 8)
+	defer c14RequestsDieWithTheirCaller(c, "C14-R1")
 
 	prom := p.Pkg("internal/promapi")
 	if prom == nil {
